@@ -240,6 +240,12 @@ def sign_of(e: ast.AST, core_pred) -> Optional[int]:
         return sign_of(e.elt, lambda z: isinstance(z, ast.Name) and z.id == v)
     if isinstance(e, ast.Call) and isinstance(e.func, ast.Name) and e.func.id in ("list", "tuple") and len(e.args) == 1:
         return sign_of(e.args[0], core_pred)
+    if isinstance(e, ast.Call) and isinstance(e.func, ast.Name) and e.func.id == "abs" and len(e.args) == 1 and not e.keywords \
+            and sign_of(e.args[0], core_pred) is not None:
+        return 0        # |x| is +x for some values and -x for others: understood, and neither sign
+    if isinstance(e, ast.Call) and dotted(e.func) in ("np.abs", "numpy.abs", "np.absolute", "math.fabs") and len(e.args) == 1 \
+            and sign_of(e.args[0], core_pred) is not None:
+        return 0
     if isinstance(e, ast.UnaryOp) and isinstance(e.op, ast.USub):
         s = sign_of(e.operand, core_pred)
         return None if s is None else -s
